@@ -121,7 +121,8 @@ def run_scratch(W, cfg):
     scratch = W.complexes('dirty', sshape)
     ref = lt.propagate_fft(w, pixelscale=du, oversample=cfg['os']).field
     try:
-        got = lt.propagate_fft(w, pixelscale=du, oversample=cfg['os'], scratch=scratch).field
+        kept = lt.propagate_fft(w, pixelscale=du, oversample=cfg['os'], scratch=scratch)
+        got = kept.field
     except ValueError:
         if cfg['extra'].startswith('smaller'):
             W.ob_ok('too-small scratch refused')
@@ -146,6 +147,12 @@ def run_scratch(W, cfg):
         ref4 = lt.propagate_fft(pw, pixelscale=du_s, oversample=cfg['os']).field
         got4 = lt.propagate_fft(pw, pixelscale=du_s, oversample=cfg['os'], scratch=scratch).field
         W.ob('reused scratch for a smaller FFT grid', got4, ref4)
+    # another wavefront through the same buffer (a second wavelength of a broadband loop, say), then the result kept from the first call
+    other = lt.Wavefront(lam) * lt.Pupil(amplitude=pupil.amplitude * 2 + 1, pixelscale=dx, focal_length=f, mask=pupil.mask.copy())
+    ref5 = lt.propagate_fft(other, pixelscale=du, oversample=cfg['os']).field
+    got5 = lt.propagate_fft(other, pixelscale=du, oversample=cfg['os'], scratch=scratch).field
+    W.ob('another wavefront through the same scratch', got5, ref5)
+    W.ob('the wavefront returned by the first call is unaffected by later use of the buffer', kept.field, ref)
 
 
 def cfg_tilt(tier, seed):
@@ -217,6 +224,11 @@ def run_band(W, cfg):
         W.assume(inv_alpha < N + half)
     if cfg['scales'] == 'scalar' and Nr != Nc:
         return
+    # the advertised scratch size is the FFT grid for every wavelength of the band, also with oversampling (sampling du*os here,
+    # so that the oversampled grid is the same N): a buffer of that size is accepted
+    for os_adv in (1, 2, 3):
+        adv = lt.scratch_shape(lam, dx, (du[0] * os_adv, du[1] * os_adv), f, os_adv)
+        W.ob_true(f'advertised scratch shape = fft grid (oversample {os_adv})', tuple(int(x) for x in adv) == (Nr, Nc))
     pupil = lt.Pupil(amplitude=A, pixelscale=dx, focal_length=f, mask=rnp.ones((nr, nc), dtype=int))
     w = lt.Wavefront(lam) * pupil
     o = lt.propagate_fft(w, pixelscale=du, oversample=1)
